@@ -456,7 +456,7 @@ def obligations(tier):
         X("window_k", window_k, parts=[{"f": f} for f in range(1, F + 1)], labels=("runs", "off_phase", "outside"),
           timeout=120, group=2, encoded=enc, bounds={"frequency": "1..%d (concrete per partition)" % F, "start,end,timestep,k": "all ints"}),
         X("default_end", default_end, labels=("runs",), timeout=120, encoded=enc + (System.__init__,)),
-        X("multi_step", multi_step, parts=[{"N": N}], labels=("ran_twice",), timeout=600, encoded=enc, bounds={"n": "1..%d" % N}),
+        X("multi_step", multi_step, parts=[{"N": min(N, 5)}], labels=("ran_twice",), timeout=900, encoded=enc, bounds={"n": "1..%d" % min(N, 5)}),
         X("multi_vs_single", multi_vs_single, parts=[{"N": N, "f": f} for f in (1, 2, 3)], labels=("ran_twice",),
           timeout=600, encoded=enc, bounds={"n": "1..%d" % N, "frequency": "1..3 (concrete per partition)"}),
         X("many_systems", many_systems, parts=ms, labels=("late_registration_runs",), timeout=600,
